@@ -342,12 +342,18 @@ class Downloader(ABC):
                                 )
                                 async for chunk in response.stream():
                                     if self._settings.rate_limiter:
-                                        await self._settings.rate_limiter.acquire(
-                                            min(
-                                                len(chunk),
+                                        # Limiter accepts at most max_rate at once:
+                                        # account bigger chunks in slices
+                                        remaining = len(chunk)
+                                        while remaining > 0:
+                                            amount = min(
+                                                remaining,
                                                 self._settings.rate_limiter.max_rate,
                                             )
-                                        )
+                                            await self._settings.rate_limiter.acquire(
+                                                amount
+                                            )
+                                            remaining -= amount
 
                                     size += len(chunk)
                                     slow_rate_protector.rate(len(chunk))
